@@ -132,7 +132,7 @@ func suiteEvaluators(tier string, seed uint64, model string) *Report {
 	r := NewRng(seed)
 	n := 12000
 	if tier == "thorough" {
-		n = 150000
+		n = 600000
 	}
 	type cs struct {
 		path []Frag
